@@ -12,6 +12,7 @@ pub use self::{
 };
 use crate::{account::Signature, serialization::JsonObject};
 use ethdigest::Digest;
+use ethnum::U256;
 use serde::{
     de::{self, Deserializer},
     Deserialize,
@@ -61,9 +62,14 @@ impl<'de> Deserialize<'de> for Transaction {
                 serde_json::from_value(json.into()).map_err(de::Error::custom)?,
             ))
         } else {
-            Ok(Transaction::Legacy(
-                serde_json::from_value(json.into()).map_err(de::Error::custom)?,
-            ))
+            let tx = serde_json::from_value::<LegacyTransaction>(json.into())
+                .map_err(de::Error::custom)?;
+            // NOTE: The EIP-155 `v = 35 + 2 * chain_id + y_parity` of the
+            // signed transaction must fit in 256 bits.
+            if tx.chain_id > Some((U256::MAX - 36) / 2) {
+                return Err(de::Error::custom("chain ID too large for EIP-155"));
+            }
+            Ok(Transaction::Legacy(tx))
         }
     }
 }
